@@ -1131,7 +1131,7 @@ func (e *Exec) runMain(fn *ssa.Function) (end pathEnd) {
 			case lenientFail:
 				end = pathEnd{endUnsupported, r.msg}
 			default:
-				end = pathEnd{endEngineBug, fmt.Sprintf("%v\n%s", r, clip(string(debug.Stack()), 3000))}
+				end = pathEnd{endEngineBug, fmt.Sprintf("%v%s\n%s", r, e.where(), clip(string(debug.Stack()), 3000))}
 			}
 		}
 		e.killGoroutines()
